@@ -180,6 +180,12 @@ impl Check for C06 {
         crate::gen::nest_variants(&mut r, &mut events);
         crate::gen::unwind_variants(&mut r, &mut events);
         crate::gen::decliner_variants(&mut r, &mut events);
+        if r.chance(1, 5) {
+            // the calculator is built from a JSON table in which the dollar does not stand at 1 (the very first event:
+            // everything else, rule registrations included, happens on that calculator)
+            let t0 = events.first().map(|e| e.clock.base()).unwrap_or(crate::clock::NS);
+            events.insert(0, Event { actor: ADMIN, op: Op::Admin(AdminOp::LoadTable { usd: *r.pick(&[2.0, 0.5, 1.25, 4.0]) }), clock: ClockScript::Frozen { t: t0 } });
+        }
         Trace { check: "C06".into(), seed, host_tz: env.host_tz.clone(), salt: r.next(), mode: if faults { "faults".into() } else { "fault-free".into() }, events }
     }
 
